@@ -785,7 +785,9 @@ func grpcErrorToTrailer(bufferPool *bufferPool, trailer http.Header, protobuf Co
 		)
 		return
 	}
-	code := strconv.Itoa(int(status.Code))
+	// The wire type of the code is int32, but codes are unsigned: write the
+	// number that the Code stands for, not a negative one.
+	code := strconv.FormatUint(uint64(uint32(status.Code)), 10 /* base */)
 	bin, binErr := protobuf.Marshal(status)
 	if binErr != nil {
 		trailer.Set(
